@@ -102,6 +102,18 @@ OUTSIDE = [
     {"nonorthogonal_xpoint_poloidal_spacing_length": 50.0},
     {"nonorthogonal_target_outer_lower_poloidal_spacing_length": 20.0,
      "nonorthogonal_target_all_poloidal_spacing_range": 0.1},
+    # milder excesses: depending on the topology these are refused at the first contour,
+    # in the middle of a region (some of its contours already regridded in place), in a
+    # later region, or not at all - the depth at which a regrid fails is part of the search
+    {"nonorthogonal_xpoint_poloidal_spacing_length": 2.0},
+    {"nonorthogonal_xpoint_poloidal_spacing_length": 3.0},
+    {"nonorthogonal_xpoint_poloidal_spacing_length": 5.1},
+    {"nonorthogonal_xpoint_poloidal_spacing_length": 8.0},
+    {"nonorthogonal_xpoint_poloidal_spacing_length": 20.0},
+    {"nonorthogonal_target_all_poloidal_spacing_length": 4.0,
+     "nonorthogonal_target_all_poloidal_spacing_range": 0.1},
+    {"nonorthogonal_target_all_poloidal_spacing_length": 6.0,
+     "nonorthogonal_target_all_poloidal_spacing_range": 0.1},
 ]
 
 
@@ -158,9 +170,13 @@ def make_case(rng, allow_method_change=False, faults_ok=False, geoms=GEOMS, np_c
             s.update(bad)
             good = {k: v for k, v in good.items() if k not in bad}
             ops.append({"op": "regrid", "s": s, "tag": "outside"})
-            if rng.random() < 0.7:
+            r = rng.random()
+            if r < 0.45:
                 ops.append({"op": "regrid", "s": good, "tag": "repair"})
                 visited.append(good)
+            elif r < 0.8:
+                # ... or simply goes back to the settings that worked last
+                ops.append({"op": "regrid", "s": dict(visited[-1]), "tag": "undo"})
         elif k == "write":
             ops.append({"op": "write"})
         elif k == "fault":
@@ -174,10 +190,13 @@ def make_case(rng, allow_method_change=False, faults_ok=False, geoms=GEOMS, np_c
                                "slow_prob": rng.choice((1e-3, 1e-2))}}
             s = dict(rng.choice(pool))
             ops.append(dict({"op": "regrid", "s": s}, **f))
-            if rng.random() < 0.7:
+            r = rng.random()
+            if r < 0.45:
                 # the interrupted regrid is simply tried again with the same settings
                 ops.append({"op": "regrid", "s": dict(s), "tag": "retry"})
                 visited.append(s)
+            elif r < 0.8:
+                ops.append({"op": "regrid", "s": dict(visited[-1]), "tag": "undo"})
     final = dict(rng.choice(pool))
     if method_change:
         final.update(rng.choice(METHOD_SETTINGS))
